@@ -43,6 +43,13 @@ static std::string pattern(Rng& rng, const std::string& t)
 	return v;
 }
 
+static void die(const std::string& msg)
+{
+	fprintf(stderr, "VREC-FAIL: %s\n", msg.c_str());
+	fflush(stderr);
+	_exit(3); // no destructors, no leak report: the message is the finding
+}
+
 struct Pending { int kind; std::string t; int n; std::string order; }; // kind 0 scalar, 1 array (n elements), 2 string (n bytes)
 
 template <class S>
@@ -125,6 +132,11 @@ struct Exec
 		if (!reading) { s.startReading(); reading = true; }
 		Pending p = q.front();
 		q.pop_front();
+		// never block (socket) or run past the end (buffer): the bytes must already be there
+		int need = p.kind == 2 ? p.n : p.n * sizeOfType(p.t);
+		if (s.unread() < need)
+			die(std::string(S::name()) + ": the stream holds " + std::to_string(s.unread()) + " unread bytes, the next written item (" +
+			    (p.kind == 2 ? "string" : p.t) + " x " + std::to_string(p.n) + ") needs " + std::to_string(need));
 		if (p.kind == 2)
 		{
 			std::string b = s.getRaw(p.n, rng.below(2));
@@ -157,10 +169,7 @@ struct Exec
 		}
 		while (!q.empty()) readOne();
 		if (s.unread() != 0)
-		{
-			fprintf(stderr, "VREC-FAIL: %d bytes left in the stream after everything was read back\n", s.unread());
-			exit(3);
-		}
+			die(std::string(S::name()) + ": " + std::to_string(s.unread()) + " bytes left in the stream after everything was read back");
 	}
 };
 
